@@ -530,12 +530,20 @@ def check_single(ctx, mods, cname, x, metric, mode, value, dim, tau,
     if setter is not None:
         smode, sval = setter
         stags = tags + ["after-setter"]
+        skw = {}
+        if smode == "adaptive_neighborhood_size" and r.random() < 0.7:
+            # documented option: the order in which states are processed;
+            # the guarantee (>= size neighbours) may not depend on it
+            skw["order"] = r.permutation(E.shape[0])
+            stags = stags + ["order"]
+            ctx.count("adaptive_with_order")
         ok, res = ctx.call(getattr(obj, "set_fixed_" + smode
                                    if smode != "adaptive_neighborhood_size"
-                                   else "set_" + smode), sval)
+                                   else "set_" + smode), sval, **skw)
         ctx.evals()
         ctx.count("setter_cases")
-        scase = {**case, "setter": smode, "setter_value": sval}
+        scase = {**case, "setter": smode, "setter_value": sval,
+                 **{k: v.tolist() for k, v in skw.items()}}
         if not ok:
             ctx.violation(sig(cname, "set_" + smode,
                               f"raises:{type(res).__name__}", stags),
@@ -777,10 +785,12 @@ def draw_single(ctx, mods, r, cid, nmax):
         ctx.count("rejected")
         return
     setter = None
-    if cname == "RecurrenceNetwork" and r.random() < 0.5:
+    if r.random() < 0.5:
+        # a setter call on the live object (both classes)
         smode = str(r.choice(["threshold", "recurrence_rate",
-                              "local_recurrence_rate", "threshold_std"],
-                             p=[.5, .25, .15, .1]))
+                              "local_recurrence_rate", "threshold_std",
+                              "adaptive_neighborhood_size"],
+                             p=[.4, .2, .15, .1, .15]))
         if np.isnan(x).any() or normalize:
             smode = "threshold"
         sval, ok = draw_value(r, smode, D, ne, exact,
